@@ -75,6 +75,7 @@ impl<C: Config, Q: Query> Snapshot<C, Q> {
             return;
         };
 
+        crate::verif_pause!("r.recompute", Some(snapshot.query_id()));
         // IMPORTANT: we must clear all dependencies record before executing the
         // query. During repairation, query might record the dependencies in
         // order to determine if the query needs to be recomputed. When it's
@@ -209,6 +210,7 @@ impl<C: Config, Q: Query> Snapshot<C, Q> {
 
             join_set.spawn(async move {
                 for tfc in tfc_chunk {
+                    crate::verif_pause!("tfc.item", Some(&tfc));
                     let executor = engine
                         .executor_registry
                         .get_executor_entry_by_type_id(&tfc.stable_type_id());
@@ -246,6 +248,7 @@ impl<C: Config, Q: Query> Snapshot<C, Q> {
         query_computing: &Arc<QueryComputing>,
         pedantic_repair: bool,
     ) -> CalleeCheckDecision {
+        crate::verif_pause!("r.check", Some(callee));
         // skip if not dirty
         // however, we can't skip if pedantic_repair is true
         let edge_is_dirty = engine.is_edge_dirty(*query_id, *callee).await;
@@ -296,6 +299,7 @@ impl<C: Config, Q: Query> Snapshot<C, Q> {
         }
 
         let mut repair_transitive_firewall_callees = false;
+        crate::verif_pause!("r.checked", Some(callee));
 
         // after repairing, compare the fingerprints to see if we need to
         // recompute
